@@ -182,10 +182,13 @@ def run_case(case):
                             env[nme] = num_
                 if env is None:
                     continue
+                finfo = {}
                 try:
-                    val = float(feval.evaluate(feval.parse(fcn), env, strict=True))
+                    val = float(feval.evaluate(feval.parse(fcn), env, strict=True, info=finfo))
                 except Exception:
                     continue
+                if finfo.get("fragile") or finfo.get("tie"):
+                    continue  # a comparison of two sums that are equal up to the order of summation
                 par = view.pars.get((pop, pname))
                 if par is None or not np.isfinite(val):
                     continue
